@@ -297,6 +297,22 @@ Lemma wf_neg nb e :
   wf_expr nb (EUnary Negative e) = true.
 Proof. intros H1 H2 H3. cbn [wf_expr]. now rewrite H1, H2, H3. Qed.
 
+Lemma wf_signed_intro nb v t :
+  (- i128_max <= v)%Z -> (v <= i128_max)%Z -> lit_type_ok_signed t = true ->
+  wf_expr nb (ESigned v t) = true.
+Proof.
+  intros H1 H2 H3. cbn [wf_expr]. apply Z.leb_le in H1, H2. now rewrite H1, H2, H3.
+Qed.
+
+Lemma wf_signed_pos nb v t :
+  wf_expr nb (ESigned v t) = true -> (0 <? v)%Z = true ->
+  (v <= i128_max)%Z /\ lit_type_ok_signed t = true.
+Proof.
+  cbn [wf_expr]. intros H Hv. apply Z.ltb_lt in Hv. apply orb_prop in H as [H|H].
+  - apply andb_prop in H as [H Ht]. apply andb_prop in H as [_ Hhi]. apply Z.leb_le in Hhi. auto.
+  - apply andb_prop in H as [H _]. apply Z.eqb_eq in H. unfold i128_min_abs in H. lia.
+Qed.
+
 Lemma step_unary f : SpecE f -> Sunary (S f).
 Proof.
   intros (Hp & _ & _ & _ & _ & _ & _ & _ & _ & _ & Hr & _) nb ts e r Hok H.
@@ -316,21 +332,31 @@ Proof.
     destruct (parse_primary f nb (tl ts)) as [[e0 r0]|] eqn:E; [|discriminate H].
     apply Hp in E as (Hok1 & Hwf1 & Hl1 & He1); [|exact (OK_tl _ Hok)].
     assert (Hl0 : lvl e0 = 0) by lia.
-    destruct e0 as [| | |v t| | | | | | | | | | |];
+    destruct e0 as [| | |v t|v t| | | | | | | | | |];
       try (injection H as <- <-;
            split; [exact Hok1|split; [|split; [cbn [lvl]; lia|intros Hps; cbn [redge]; exact (He1 Hps)]]];
            apply wf_neg; [exact Hwf1|exact Hl0|reflexivity]).
-    (* ESigned *)
-    destruct (0 <? v)%Z eqn:Ev; injection H as <- <-.
-    + cbn [wf_expr] in Hwf1. apply andb_prop in Hwf1 as [Hwf1 Ht]. apply andb_prop in Hwf1 as [Hlo Hhi].
-      apply Z.ltb_lt in Ev. apply Z.leb_le in Hlo, Hhi.
-      eres_split; [exact Hok1| | |intros _; reflexivity].
-      * cbn [wf_expr]. rewrite Ht.
-        replace (- i128_max <=? - v)%Z with true by (symmetry; apply Z.leb_le; lia).
-        replace (- v <=? i128_max)%Z with true by (symmetry; apply Z.leb_le; lia). reflexivity.
-      * cbn [lvl]. destruct (- v <? 0)%Z; lia.
-    + eres_split; [exact Hok1| |cbn [lvl]; lia|intros _; reflexivity].
-      apply wf_neg; [exact Hwf1|exact Hl0|exact Ev].
+    { (* ESigned *)
+      destruct (0 <? v)%Z eqn:Ev; injection H as <- <-.
+      + destruct (wf_signed_pos nb v t Hwf1 Ev) as (Hhi & Ht). apply Z.ltb_lt in Ev.
+        eres_split; [exact Hok1| | |intros _; reflexivity].
+        * apply wf_signed_intro; [lia|lia|exact Ht].
+        * cbn [lvl]. destruct (- v <? 0)%Z; lia.
+      + eres_split; [exact Hok1| |cbn [lvl]; lia|intros _; reflexivity].
+        apply wf_neg; [exact Hwf1|exact Hl0|exact Ev].
+    }
+    { (* EBits: the magnitude of i128::MIN *)
+      destruct (v =? i128_min_abs)%Z eqn:Ev; injection H as <- <-.
+      + apply Z.eqb_eq in Ev. subst v.
+        eres_split; [exact Hok1| | |intros _; reflexivity].
+        2: { cbn [lvl]. match goal with |- (if ?b then _ else _) <= _ => destruct b; lia end. }
+        cbn [wf_expr] in Hwf1 |- *. apply andb_prop in Hwf1 as [_ Ht].
+        change (- i128_min_abs =? - i128_min_abs)%Z with true.
+        replace (lit_type_ok_min t) with true; [apply orb_true_r|].
+        destruct t as [[]|]; try reflexivity; discriminate Ht.
+      + eres_split; [exact Hok1| |cbn [lvl]; lia|intros _; reflexivity].
+        apply wf_neg; [exact Hwf1|exact Hl0|exact Ev].
+    }
   - (* |: *)
     crack H. subst. injection H as <- <-.
     apply parse_wellformed_type_ok in E as [Ht Hok']. pose proof (OK_tl _ Hok). okchain.
@@ -345,10 +371,9 @@ Proof.
   destruct (kind t); intros Hok H; try discriminate H.
   - apply andb_prop in Hok as [H0 H1]. pose proof H0 as H0'. apply Z.leb_le in H0'.
     destruct (value t <=? i128_max)%Z eqn:Em; injection H as <-.
-    + repeat split; cbn [wf_expr lvl lit_type_ok_signed].
-      * rewrite Em. replace (- i128_max <=? value t)%Z with true; [reflexivity|].
-        symmetry. apply Z.leb_le. unfold i128_max. lia.
-      * replace (value t <? 0)%Z with false; [reflexivity|]. symmetry. apply Z.ltb_ge. lia.
+    + repeat split.
+      * apply Z.leb_le in Em. apply wf_signed_intro; [unfold i128_max; lia|exact Em|reflexivity].
+      * cbn [lvl]. replace (value t <? 0)%Z with false; [reflexivity|]. symmetry. apply Z.ltb_ge. lia.
     + repeat split; cbn [wf_expr lvl lit_type_ok_bits]. now rewrite H0, H1.
   - apply andb_prop in Hok as [H0 H1]. injection H as <-.
     repeat split; cbn [wf_expr lvl lit_type_ok_bits]. now rewrite H0, H1.
@@ -357,10 +382,9 @@ Proof.
     destruct (vtype t) as [[|p]|]; try discriminate H.
     destruct (prim_signed p && (value t <=? i128_max)%Z) eqn:Es; injection H as <-.
     + apply andb_prop in Es as [Es Em].
-      repeat split; cbn [wf_expr lvl lit_type_ok_signed].
-      * rewrite Em, Es. replace (- i128_max <=? value t)%Z with true; [reflexivity|].
-        symmetry. apply Z.leb_le. unfold i128_max. lia.
-      * replace (value t <? 0)%Z with false; [reflexivity|]. symmetry. apply Z.ltb_ge. lia.
+      repeat split.
+      * apply Z.leb_le in Em. apply wf_signed_intro; [unfold i128_max; lia|exact Em|exact Es].
+      * cbn [lvl]. replace (value t <? 0)%Z with false; [reflexivity|]. symmetry. apply Z.ltb_ge. lia.
     + repeat split; cbn [wf_expr lvl]. rewrite H0, H1. cbn [andb].
       destruct p; try discriminate Hty; cbn [lit_type_ok_bits prim_signed] in *; try reflexivity;
         cbn [andb] in Es; apply Z.leb_gt in Es; apply Z.ltb_lt; exact Es.
